@@ -67,6 +67,13 @@ pub fn eval_case(ops: &[Op], drv: Option<&mut Drv>, pool: &Pool) -> CaseResult {
     let lay = match identify(&mut disp, &shared, &built) {
         Ok(l) => l,
         Err(e) => {
+            // what the built dispatcher runs is not what was registered, level by level
+            if Op::depth(ops) > 0 {
+                impl_v.push(("C07".to_string(), format!("{} (a dispatcher with batches)", e)));
+            }
+            if Op::has_tl_in_batch(ops, false) || ops.iter().any(|o| matches!(o, Op::Tl { .. })) {
+                impl_v.push(("C12".to_string(), format!("{} (a dispatcher with thread-local systems)", e)));
+            }
             impl_v.push(("C04".to_string(), e));
             return CaseResult { impl_v, model_v, layout: None, built, max_threads: mt };
         }
